@@ -1,0 +1,45 @@
+//go:build verif
+
+package verifspec
+
+// Contracts for the 64-bit integer helpers of compiler/prelude/numeric.js (property C06).
+//
+// A 64-bit integer is a record {$high, $low} with $low in uint32 and $high in int32 (Int64) or uint32 (Uint64).
+// In mode bv every JavaScript number is a signed 64-bit bit-vector holding the integer it denotes, so
+// val64(x) = ($high << 32) + $low computed modulo 2^64 *is* Go's two's-complement value of x.
+
+//@ pure val64(h int, l int) int = shl(h, 32) + l
+//@ pure repLow(l int) bool = l >= 0 && l <= 4294967295
+//@ pure repHighI(h int) bool = h >= -2147483648 && h <= 2147483647
+//@ pure repHighU(h int) bool = h >= 0 && h <= 4294967295
+
+// Go: x << y for any count y >= 0 (counts >= 64 give 0).
+//@ js numeric.js $shiftLeft64 int64
+//@ property C06
+//@   mode bv
+//@   param x: i64, y: nat
+//@   ensures val64(result.$high, result.$low) == (y < 64 ? shl(val64(x.$high, x.$low), y) : 0)
+//@   ensures repHighI(result.$high) && repLow(result.$low)
+
+//@ js numeric.js $shiftLeft64 uint64
+//@ property C06
+//@   mode bv
+//@   param x: u64, y: nat
+//@   ensures val64(result.$high, result.$low) == (y < 64 ? shl(val64(x.$high, x.$low), y) : 0)
+//@   ensures repHighU(result.$high) && repLow(result.$low)
+
+// Go: arithmetic shift for int64 (counts >= 64 give 0 or -1 by sign).
+//@ js numeric.js $shiftRightInt64
+//@ property C06
+//@   mode bv
+//@   param x: i64, y: nat
+//@   ensures val64(result.$high, result.$low) == (y < 64 ? ashr(val64(x.$high, x.$low), y) : (x.$high < 0 ? -1 : 0))
+//@   ensures repHighI(result.$high) && repLow(result.$low)
+
+// Go: logical shift for uint64 (counts >= 64 give 0).
+//@ js numeric.js $shiftRightUint64
+//@ property C06
+//@   mode bv
+//@   param x: u64, y: nat
+//@   ensures val64(result.$high, result.$low) == (y < 64 ? lshr(val64(x.$high, x.$low), y) : 0)
+//@   ensures repHighU(result.$high) && repLow(result.$low)
